@@ -708,6 +708,11 @@ func randPrefixTextC14(rng *rand.Rand) string {
 	case 4:
 		return a + "/" + pick(rng, "", "-1", "+1", "032", "00", "1 ", " 1", "a", "1/2", "/", "999999999999999999999", "٣")
 	case 5:
+		if rng.IntN(2) == 0 {
+			// address/netmask and address/address notations, in every family combination
+			return a + "/" + pick(rng, "255.255.255.0", "255.0.0.0", "0.0.0.0", "255.255.255.255", "255.0.255.0", "::255.255.255.0", "ffff:ffff::", "::",
+				"::ffff:255.255.255.0", "64:ff9b::255.0.0.0", "::1.2.3.4%eth0", randAddrTextC14(rng))
+		}
 		return pick(rng, "/", "/24", "//", "1.2.3.4/", "/1.2.3.4", "1.2.3.4/24/", "::/0", "0.0.0.0/0", "fe80::1%eth0/64", "1.2.3.4%z/32")
 	default:
 		return mutateC14(rng, a+"/"+strconv.Itoa(rng.IntN(129)), "0123456789./:%a")
